@@ -12,6 +12,7 @@ def check(ctx):
     ctx.rule("C07.L5", "every queue is unbounded (put never blocks)")
     ctx.rule("C07.L6", "seeded queues seed unfinished_tasks")
     ctx.rule("C07.L7", "the acyclicity assertion dominates thread creation and node preparation; Kahn generator exhausted; cycle verdict idiom")
+    ctx.rule("C07.L9", "worklist loops on the calling thread (all_ancestors, Kahn sort, pred_search) pop once per iteration and push only under a visited-set guard or when a decremented counter reaches zero")
     ctx.rule("C07.L8", "no blocking primitive and no user-reaching call inside any engine lock region; public queue protocol only")
     ctx.assume("calls are assumed to terminate; Thread.start() failing half-way is outside the fault model")
     r = E.discover(ctx.model)
@@ -35,3 +36,5 @@ def check(ctx):
     ctx.run(rule_composite_exit_stack, "C07.L4")
     ctx.run(R.rule_observer_exit, "C07.L4", rr)
     ctx.run(rule_error_path_total, "C07.L2")
+    from .extra import rule_worklists_terminate
+    ctx.run(rule_worklists_terminate, "C07.L9")
